@@ -10,6 +10,7 @@ with and without per-language override sections and keyword settings."""
 from __future__ import annotations
 
 import json
+import os
 from pathlib import Path
 
 from harness import coq
@@ -26,7 +27,7 @@ ACTUAL = frozenset({"py_hash", "ts_nonpublic", "ts_accessor", "ts_block", "rs_co
 FIXED_GROUPS = [(("q_ts_loc_raw_span",), {"ts_loc_raw"}), (("q_ts_abstract_skipped",), {"ts_abstract"}),
                 (("q_rs_trait_first_ident",), {"rs_trait"}), (("q_rs_generic_impl_lost",), {"rs_generic"}),
                 (("q_rs_trait_first_ident", "q_rs_generic_impl_lost"), {"rs_trait", "rs_generic"})]
-HEADER = "From TL Require Import Lib.Base Lib.GenTypes Model.SrpTypes Model.SrpSpec Model.Srp Model.SrpRun Actual.SrpActual.\n"
+HEADER = "From TL Require Import Lib.Base Lib.GenTypes Model.SrpTypes Model.SrpSpec Model.Srp Model.SrpRun Model.SrpCliSpec Model.SrpCli Actual.SrpActual.\n"
 EXT = {"py": ".py", "ts": ".ts", "js": ".js", "rs": ".rs"}
 COQ_LANG = {"py": "Py", "ts": "Ts", "js": "Js", "rs": "Rs"}
 LANG_KEY = {"py": "python", "ts": "typescript", "js": "javascript", "rs": "rust"}
@@ -575,6 +576,11 @@ def gen_configs(r, lang, us, n):
     return cfgs
 
 
+def written_dict(written):
+    """the configuration file of a CLI run"""
+    return {"nesting": {"enabled": True}} if written.get("nosrp") else cfg_to_dict(written["sec"])
+
+
 def cfg_to_dict(sec):
     d = {}
     for k, (t, v) in sec:
@@ -598,13 +604,17 @@ def gen_cases(seed: int, n_files: int, n_cfg: int, size: float):
 
 
 def gen_groups(seed: int, n_groups: int, n_cfg: int, size: float):
-    """projects: 2-3 files of different languages linted in ONE run on ONE orchestrator object under one configuration
+    """projects: 2-3 files (different languages, or two of one language with names from the same small pool) linted in ONE run on ONE orchestrator object under one configuration
     object that has a section for the first file's language (and, at random, decoy sections for the others): every
     file must get exactly what it gets alone, whatever the order in which the files are processed"""
     groups = []
     for i in range(n_groups):
         r = rng_for(seed, PROP, "group", i)
         langs = r.sample(["py", "ts", "js", "rs"], r.choice([2, 2, 3]))
+        if r.random() < 0.4:      # two files of ONE language (Rust twice as often): state an analyzer keeps between files of its language
+            lg = r.choice(["rs", "rs", "py", "ts", "js"])
+            langs = [lg, lg] + [x for x in langs if x != lg][:r.choice([0, 1])]
+            r.shuffle(langs)
         trees = [Gen(r, lg, size=size * r.choice([0.5, 1])).file() for lg in langs]
         flats = [render(lg, t)[1] for lg, t in zip(langs, trees)]
         us = [u for lg, fl in zip(langs, flats) for u in units(lg, fl)]
@@ -705,7 +715,8 @@ def make_case(cid, lang, tree, r, n_cfg, via="api", top_offset=0, configs=None, 
                 for k, v in over.items():
                     flags += ["--" + k.replace("_", "-"), str(v)]
                 cfgs[j] = [[k, ["nat", v]] for k, v in over.items()] + [e for e in sec if e[0] not in over]
-            cli.append({"sec": sec, "flags": flags})
+            # a configuration file without any `srp:` section (only another linter's): the override has to create the section
+            cli.append({"sec": sec, "flags": flags, "nosrp": not sec})
         case["cli"] = cli
     return case
 
@@ -736,7 +747,7 @@ def run_impl(case):
             for j, sec in enumerate(case["configs"]):
                 written = case["cli"][j] if "cli" in case else {"sec": sec, "flags": []}
                 cf = d / f"cfg{j}.yaml"
-                cf.write_text(yaml.safe_dump(cfg_to_dict(written["sec"])))
+                cf.write_text(yaml.safe_dump(written_dict(written)))
                 rc, so, se = run_cli(["srp", "--format", "json", "--config", str(cf), *written["flags"], str(f)], cwd=d)
                 vs = parse_json_violations(so)
                 if vs is None or rc not in (0, 1):
@@ -785,7 +796,9 @@ def coq_file(lang, flat, ext=None):
     return f"(F {COQ_LANG[lang]} {cs(ext or EXT[lang])} {lines} {classes} {structs} {impls})"
 
 
-def coq_cfg(sec):
+def coq_cfg(sec, nosrp=False):
+    if nosrp:      # a foreign section only (its content does not concern the SRP model)
+        return coq.coq_list([f"({cs('nesting')}, [])"])
     items = []
     for k, (t, v) in sec:
         if t == "nat":
@@ -800,22 +813,92 @@ def coq_cfg(sec):
     return coq.coq_list([f"({cs('srp')}, {coq.coq_list(items)})"])
 
 
+def cli_options(written):
+    """(--max-methods value or None, --max-loc value or None) of one CLI run"""
+    fl = written["flags"]
+    val = {fl[i]: int(fl[i + 1]) for i in range(0, len(fl), 2)}
+    return val.get("--max-methods"), val.get("--max-loc")
+
+
 def coq_case(case, impl) -> str:
+    """API runs: `judge` on the configuration object handed to the orchestrator.  CLI runs: `judge_cli` on the configuration FILE as
+    written plus the two options -- the override is computed by the model (Model/SrpCli.v) and by the specification (Model/SrpCliSpec.v)"""
     runs = []
-    for sec, r in zip(case["configs"], impl["runs"]):
+    for j, (sec, r) in enumerate(zip(case["configs"], impl["runs"])):
         reps = coq.coq_list([f"({l}, {c}, {cs(m)})" for l, c, m in (r if isinstance(r, list) else [])])
-        runs.append(f"({coq_cfg(sec)}, {reps})")
-    return f"judge srp_actual {coq_file(case['lang'], case['flat'], case.get('ext'))} {coq.coq_list(runs)}"
+        if "cli" in case:
+            omm, oml = cli_options(case["cli"][j])
+            runs.append(f"({coq_cfg(case['cli'][j]['sec'], case['cli'][j].get('nosrp', False))}, {coq.coq_option(omm)}, {coq.coq_option(oml)}, {reps})")
+        else:
+            runs.append(f"({coq_cfg(sec)}, {reps})")
+    return f"{'judge_cli' if 'cli' in case else 'judge'} srp_actual {coq_file(case['lang'], case['flat'], case.get('ext'))} {coq.coq_list(runs)}"
 
 
-def judge(cases, impls, workdir: Path, per_shard=12):
+PROCS = max(1, min(8, int(os.environ.get("VERIF_PROCS") or 8)))
+# the cone of Model/SrpRun.v + Actual/SrpActual.v (models only, no proofs), in dependency order
+JUDGE_FILES = ["Lib/Base.v", "Lib/GenTypes.v", "Model/SrpTypes.v", "Gen/SrpGen.v", "Gen/SrpCliGen.v", "Model/SrpSpec.v", "Model/Srp.v", "Model/SrpRun.v",
+               "Model/SrpCliSpec.v", "Model/SrpCli.v", "Actual/SrpActual.v"]
+_SNAP_ERROR = ""
+
+
+def _coqc(th: Path, path: Path, timeout: int):
+    import subprocess
+    p = subprocess.run(["timeout", str(timeout), "coqc", "-Q", str(th), "TL", "-w", "-notation-overridden,-abstract-large-number", str(path)],
+                       capture_output=True, text=True, cwd=str(path.parent))
+    return p.returncode, p.stdout, p.stderr
+
+
+def eval_shards_at(th: Path, workdir: Path, header: str, shards, timeout: int = 600):
+    """coq.eval_shards against the theories directory `th` (the build of this run or the snapshot build), at most PROCS coqc at a time"""
+    from concurrent.futures import ThreadPoolExecutor
+    workdir.mkdir(parents=True, exist_ok=True)
+    paths = []
+    for i, body in enumerate(shards):
+        p = workdir / f"cases_{i}.v"
+        p.write_text(header + "\n" + body + "\n")
+        paths.append(p)
+    with ThreadPoolExecutor(max_workers=PROCS) as ex:
+        outs = list(ex.map(lambda p: _coqc(th, p, timeout), paths))
+    res = []
+    for (rc, so, se), p in zip(outs, paths):
+        if rc != 0:
+            raise RuntimeError(f"coqc failed on {p.name} (rc={rc}): {se[-1500:]}")
+        res.append(coq.parse_nat_lists(so))
+    return res
+
+
+def build_snapshot(sd: Path):
+    """When the generated layer of the tree under test no longer fits the model (a translator item failed closed, the model no longer
+    type-checks) the model cannot be evaluated.  Fallback: a private copy of the judge's cone (specification + model + judge, no
+    proofs) compiled with Gen/SrpGen.v and Gen/SrpCliGen.v taken from coq/Gen.expected/, the generated layer of the last validated (unchanged)
+    tree.  Verdicts obtained there say how the implementation under test differs from the Coq specification and from the model the
+    theorems were proved about; the broken obligations stay broken.  Returns the scratch `theories` directory or None."""
+    import shutil
+    global _SNAP_ERROR
+    th = sd / "theories"
+    for rel in JUDGE_FILES:
+        src = (coq.COQ / "Gen.expected" / (Path(rel).name + ".txt")) if rel.startswith("Gen/") else (coq.TH / rel)
+        if not src.exists():
+            _SNAP_ERROR = f"{src} is missing"
+            return None
+        (th / rel).parent.mkdir(parents=True, exist_ok=True)
+        shutil.copy(src, th / rel)
+    for rel in JUDGE_FILES:
+        rc, _, se = _coqc(th, th / rel, 600)
+        if rc != 0:
+            _SNAP_ERROR = f"{rel}: {se[-300:]}"
+            return None
+    return th
+
+
+def judge(cases, impls, workdir: Path, per_shard=12, th: Path | None = None):
     shards, index = [], []
     for s in range(0, len(cases), per_shard):
         chunk = list(range(s, min(len(cases), s + per_shard)))
         body = "\n".join(f"Eval vm_compute in ({coq_case(cases[j], impls[j])})." for j in chunk)
         shards.append(body)
         index.append(chunk)
-    outs = coq.eval_shards(workdir, HEADER, shards)
+    outs = eval_shards_at(th or coq.TH, workdir, HEADER, shards)
     verdicts = [None] * len(cases)
     for chunk, out in zip(index, outs):
         if len(out) != len(chunk):
@@ -832,7 +915,10 @@ def corpus_cases():
     d = Path(__file__).resolve().parent.parent.parent / "corpus" / PROP
     for p in sorted(d.glob("*.json")):
         c = json.loads(p.read_text())
-        out.append(make_case("corpus:" + p.stem, c["lang"], c["tree"], None, 0, via=c.get("via", "api"), configs=c["configs"]))
+        case = make_case("corpus:" + p.stem, c["lang"], c["tree"], None, 0, via=c.get("via", "api"), configs=c["configs"])
+        if "cli" in c:      # CLI runs: the configuration files as written + option flags; `configs` holds the effective sections
+            case["cli"] = c["cli"]
+        out.append(case)
     return out
 
 
@@ -859,10 +945,10 @@ def run(tier: str, seed: int, replay: str | None = None) -> int:
     chk.trusted_base.append("C16: the abstract input (source lines with kinds, class/struct/impl records with node positions and direct members) is what the "
                             "harness renderer claims ast / tree-sitter yield for the rendered text; this parser-facing shape, str.strip() and the order of "
                             "violations are validated by the correspondence check only (violations compared as multisets)")
-    chk.build(["theories/Props/C16.v"], ["SrpGen"], known_v=["theories/Props/C16Known.v"])
+    chk.build(["theories/Props/C16.v"], ["SrpGen", "SrpCliGen"], known_v=["theories/Props/C16Known.v"])
     # enlarge the budget when an obligation broke or the hand-modelled SRP / base-analyzer sources changed
     # (fingerprints of other linters do not concern this check)
-    mine = [k for k in chk.fingerprint_changed if "/srp/" in k or "analyzers/" in k]
+    mine = [k for k in chk.fingerprint_changed if "/srp/" in k or "analyzers/" in k or "cli/linters/structure_quality" in k or "cli/linters/shared" in k]
     scale = 4 if chk.broken else (3 if mine else 1)
     n_files = (170 if tier == "quick" else 1800) * scale
     n_cfg = 6 if tier == "quick" else 8
@@ -873,7 +959,7 @@ def run(tier: str, seed: int, replay: str | None = None) -> int:
         jobs = corpus_cases() + gen_cases(seed, n_files, n_cfg, 1.0 if tier == "quick" else 1.3) \
             + gen_groups(seed, n_files // 5, 3 if tier == "quick" else 4, 0.7)
     cases, impls = [], []
-    for job, res in zip(jobs, pool_map(run_job, jobs, procs=8)):
+    for job, res in zip(jobs, pool_map(run_job, jobs, procs=PROCS)):
         ms = job["members"] if "members" in job else [job]
         for m in ms:
             if "members" in job:
@@ -881,12 +967,27 @@ def run(tier: str, seed: int, replay: str | None = None) -> int:
                               "members": [{k: x[k] for k in ("id", "lang", "ext", "tree", "text", "flat", "units", "via", "configs")} for x in ms]}
         cases += ms
         impls += res
+    snapshot_used = False
     with scratch_dir("tv-c16-coq-") as wd:
         try:
             verdicts = judge(cases, impls, wd)
         except RuntimeError as e:
             chk.broken.append(f"Model:evaluation of the SRP model failed ({str(e)[:400]})")
             verdicts = [None] * len(cases)
+            th = build_snapshot(wd / "snap")
+            if th is None:
+                chk.notes.append("the Gen.expected snapshot of the judge's cone could not be built (" + _SNAP_ERROR + "): runs are judged by the Python mirror")
+            else:
+                try:
+                    verdicts = judge(cases, impls, wd / "snapshot-judging", th=th)
+                    snapshot_used = True
+                    chk.notes.append("the model could not be evaluated against the generated layer of this tree; every run was judged inside Coq against "
+                                     "Model/SrpSpec.v and the model built from coq/Gen.expected/SrpGen.v.txt (generated layer of the last validated tree)")
+                except RuntimeError as e2:
+                    verdicts = [None] * len(cases)
+                    chk.notes.append(f"judging against the Gen.expected snapshot failed as well ({str(e2)[:300]}): runs are judged by the Python mirror")
+    snap_note = " [the model of this tree could not be built: judged in Coq with the generated layer of the last validated tree, coq/Gen.expected/SrpGen.v.txt]" \
+        if snapshot_used else ""
     cands_all = None
     mirror_bad = []
     for case, impl, ver in zip(cases, impls, verdicts):
@@ -953,7 +1054,7 @@ def run(tier: str, seed: int, replay: str | None = None) -> int:
             if spec_ok:
                 continue
             info = {"config": cfg_to_dict(sec), "impl": r, "case": one,
-                    "reason": "reported classes / messages differ from the documented SRP thresholds (methods > max_methods, lines > max_loc, keyword)"}
+                    "reason": "reported classes / messages differ from the documented SRP thresholds (methods > max_methods, lines > max_loc, keyword)" + snap_note}
             relevant = [FLAGS[i] for i in range(len(FLAGS)) if not cand[1 + i]]
             if cand[0] and ideal_ok and not relevant:
                 relevant = LANG_FLAGS[lang]   # several listed defects compensate one another on this input
@@ -980,5 +1081,5 @@ def run(tier: str, seed: int, replay: str | None = None) -> int:
             chk.notes.append("implementation no longer matches the claimed quirk vector but matches: " + names[alt[0]] +
                              " (a listed defect is no longer observed; theorems hold for every vector)")
         else:
-            chk.correspondence_broken({"level": "observable", "detail": "Model/Srp.v under Actual/SrpActual.v disagrees with the implementation and no candidate quirk vector matches all cases"})
+            chk.correspondence_broken({"level": "observable" + (" (model built from the Gen.expected snapshot)" if snapshot_used else ""), "detail": "Model/Srp.v under Actual/SrpActual.v disagrees with the implementation and no candidate quirk vector matches all cases"})
     return chk.finish()
